@@ -14,7 +14,7 @@ const connStruct = "layer4.Connection"
 func init() {
 	register(&property{
 		ID:          "C01",
-		Explanation: "Static decision of the cursor discipline that makes match-and-rewind lossless: (R1) every ConnMatcher.Match invocation is bracketed by freeze/unfreeze on all paths (typestate over the SSA CFG); (R2) freeze saves and unfreeze restores exactly the read cursor; (R3) Connection.Read, evaluated over all orderings of (matching, len(buf), offset) by a finite-predicate path evaluator, drains the buffer before the socket, advances the cursor by what was copied, resets only outside matching and never touches the socket while matching; (R4) prefetch appends exactly the bytes the underlying read returned; (R5) no component copies a Connection by value or constructs one outside the two constructors, Wrap never hands unread bytes to the new connection, and every Wrap argument reads through the receiver; (R6) the router adopts the connection handed on by a non-terminal route; (R7) every handler passes on the connection it got, or Wrap of a conn built on it.",
+		Explanation: "Static decision of the cursor discipline that makes match-and-rewind lossless: (R1) every ConnMatcher.Match invocation is bracketed by freeze/unfreeze on all paths (typestate over the SSA CFG); (R2) freeze saves and unfreeze restores exactly the read cursor; (R3) Connection.Read, evaluated over all orderings of (matching, len(buf), offset) by a finite-predicate path evaluator, drains the buffer before the socket, advances the cursor by what was copied, resets only outside matching and never touches the socket while matching; (R4) prefetch appends exactly the bytes the underlying read returned; (R5) no component copies a Connection by value or constructs one outside the two constructors, Wrap never hands unread bytes to the new connection, and every Wrap argument reads through the receiver; (R6) the router adopts the connection handed on by a non-terminal route; (R7) every handler passes on the connection it got, or Wrap of a conn built on it; (R8) the value delivered to the consumer of a wrapped listener reads through the layer4 connection.",
 		NotDecided:  "Equality of the delivered stream with the sent stream for all streams and segmentations (conjunction of these rules plus the semantics of tls.Conn, bufio, io.TeeReader, which are trusted); buffer growth arithmetic beyond R4; handlers outside this module.",
 		Run:         runC01,
 	})
@@ -41,6 +41,7 @@ func runC01(c *Ctx, r *Report) {
 	c01R5(c, r, "C01.R5")
 	c01R6(c, r, "C01.R6")
 	c01R7(c, r, "C01.R7")
+	c13R6(c, r, "C01.R8") // the consumer of a wrapped listener is a "next component" too: what it is handed reads through the layer4 connection
 }
 
 // ---------------- R1: match bracket (typestate) ----------------
@@ -555,8 +556,18 @@ func c01R5(c *Ctx, r *Report, rule string) {
 			}
 			n++
 			recv, arg := ci.Common().Args[0], ci.Common().Args[1]
-			ok := derivesFrom(arg, rootOf(recv))
-			r.check(ok, rule, fname(fn), fmt.Sprintf("Wrap-arg#%d", n), c.ipos(ci), "the wrapped conn is built on the receiver (reads through it)", "the conn passed to Wrap does not derive from the receiver connection: the receiver's buffered bytes would be skipped")
+			// built on the receiver itself, not on the receiver's underlying Conn (which bypasses the receiver's buffer)
+			underlying := func(v ssa.Value) bool {
+				ld, ok := v.(*ssa.UnOp)
+				if !ok || ld.Op != token.MUL {
+					return false
+				}
+				_, sn, f, ok := fieldAddr(ld.X)
+				_ = f
+				return ok && sn == "layer4.Connection" // what a field of the receiver holds (its socket, its context) is not the receiver
+			}
+			ok := derivesFromAvoiding(arg, rootOf(recv), underlying)
+			r.check(ok, rule, fname(fn), fmt.Sprintf("Wrap-arg#%d", n), c.ipos(ci), "the wrapped conn is built on the receiver (reads through it)", "the conn passed to Wrap is not built on the receiver connection itself (it is built on something else, or only on what the receiver's fields hold, e.g. its underlying Conn): the receiver's buffered bytes would be skipped")
 		}
 	}
 }
